@@ -43,6 +43,20 @@ type suFan struct {
 	drift     int64
 	driftLeft int64
 	evalSeq int64
+	// panicAttachUs > 0: the fan's driver panics in AttachFanRpmCurveData that many microseconds (real time) after the
+	// call began (a fault on the start-up path of ONE controller, outside any analysis of its own)
+	panicAttachUs int
+}
+
+// panicFan is a fan whose driver faults (panics) when the measured curve is attached
+type panicFan struct {
+	fans.Fan
+	after time.Duration
+}
+
+func (p *panicFan) AttachFanRpmCurveData(d *map[int]float64) error {
+	time.Sleep(p.after)
+	panic("verif: fan driver fault in AttachFanRpmCurveData")
 }
 
 // the device's physics: the RPM register follows the PWM register at every write event
@@ -108,6 +122,7 @@ func suNewFan(a kv) *suFan {
 		}
 	}
 	f.drift = int64(a.int("drift", 0))
+	f.panicAttachUs = a.int("panicattach_us", 0)
 	if q := a.int("quant", 0); q > 1 {
 		f.dev.Resp = func(v int) int { return (v / q) * q }
 	}
@@ -253,9 +268,16 @@ func (p *flakyPersistence) LoadFanPwmMap(fanId string) (map[int]int, error) {
 var suFlaky = map[string]int{}
 var suFlakyMu sync.Mutex
 
+// the fan object of the most recent suRunOne (the one that went through the real Run)
+var suLastFan fans.Fan
+
 func suRunOne(f *suFan, ctx context.Context, cancelAfterEval bool) (res string, from int64) {
 	from = atomic.LoadInt64(&suSeq)
 	fan := f.newFan()
+	if f.panicAttachUs > 0 {
+		fan = &panicFan{Fan: fan, after: time.Duration(f.panicAttachUs) * time.Microsecond}
+	}
+	suLastFan = fan
 	curve := &suCurve{id: f.cfg.Curve, fan: f, done: make(chan struct{})}
 	curves.RegisterSpeedCurve(curve)
 	var p persistence.Persistence = persistence.NewPersistence(suDb)
@@ -375,7 +397,25 @@ func init() {
 			res, from := suRunOne(f, context.Background(), true)
 			w, sweep, measure, _, _ := suClassify(f.id, from)
 			_ = w
-			return fmt.Sprintf("res=%s sweep=%s measure=%s %s", res, b01(sweep), b01(measure), suStored(f))
+			// the limits the fan object carries into regulation after the REAL start-up (Run: load / analyse, attach)
+			lim := "-"
+			if res == "ok" && suLastFan != nil {
+				lim = fmt.Sprintf("%d/%d/%d", suLastFan.GetMinPwm(), suLastFan.GetStartPwm(), suLastFan.GetMaxPwm())
+			}
+			return fmt.Sprintf("res=%s sweep=%s measure=%s %s lim=%s", res, b01(sweep), b01(measure), suStored(f), lim)
+		case "su.putrpm":
+			// plant a measured RPM curve of an earlier run in the database (through the real persistence)
+			f := suFans[a.str("fan", "f1")]
+			h, ok := f.newFan().(*fans.HwMonFan)
+			if !ok {
+				return "bad-op"
+			}
+			m, _ := parseFloatMap(a.str("data", "-"))
+			h.FanCurveData = &m
+			if err := persistence.NewPersistence(suDb).SaveFanPwmData(h); err != nil {
+				return "err " + suStored(f)
+			}
+			return "ok " + suStored(f)
 		case "su.flaky":
 			suFlakyMu.Lock()
 			suFlaky[a.str("fan", "f1")] = a.int("at", 2)
@@ -584,6 +624,9 @@ func init() {
 						time.Sleep(time.Duration(delays[i]) * time.Microsecond)
 					}
 					results[i], _ = suRunOne(suFans[id], tctx, true)
+					if strings.HasPrefix(results[i], "panic") {
+						results[i] = "panic"
+					}
 				}(i, id)
 			}
 			wg.Wait()
